@@ -25,7 +25,7 @@ RULE = ("(1) histories of put/get/purge/clear/clock-advance/reopen/foreign-versi
         ' ; long reader-style ids sharing most of their characters'
         ' ; expiry on the real clock; suds text objects through the object cache; WSDLs at file: URLs'
         ' ; a sub-folder named like an entry; a WSDL not served past the duration of the cache it was given'
-        ' ; durations the cache has; endpoints of warm clients; names outside ASCII')
+        ' ; durations the cache has; endpoints of warm clients; names outside ASCII; warm clients over interfaces of the generated family')
 ASSUMPTIONS = ["pickle and expat reject every proper prefix and zero-filled prefix of an entry (validated by the sweep)",
                "hashlib.md5 does not collide on the URLs used"]
 PARTIAL = [{"theorem": "interleaved_get_sound", "missing": "under concurrent writers only 'a value some process stored "
@@ -977,6 +977,47 @@ def durations_locations_and_names(ctx, workdir):
                 shutil.rmtree(d, ignore_errors=True)
 
 
+def family_warm_clients(ctx, workdir):
+    """Interfaces of the generated family (several documents, derived types, attributes, arrays), loaded cold and warm
+    under both caching policies: the warm client has the operations and types of the cache-less one, builds the same
+    requests, decodes the same replies and fetches nothing."""
+    import suds.cache
+    from harness.props import c12
+    for i in range(ctx.pick(4, 60)):
+        ident = "C11/%s/%d" % (ctx.seed, i) + ("/enc" if i % 5 == 4 else "")
+        try:
+            I, single, docs, root, plan, decoys, st, net = c12.build_case(ident)
+        except Exception as e:
+            ctx.notes.append("generator failed for %s: %r" % (ident, e))
+            continue
+        base, err, _s, _t = c12.load(root, st, net)
+        if err is not None:
+            continue                    # (whether this graph loads at all is C12's matter)
+        ref = c12.fingerprint(base, I, ident)
+        for cls, policy in ((suds.cache.ObjectCache, 1), (suds.cache.DocumentCache, 0), (suds.cache.ObjectCache, 0)):
+            d = tempfile.mkdtemp(dir=workdir)
+            meta = {"stream": "family-warm-clients", "iface": ident, "documents": len(docs), "cache": cls.__name__,
+                    "cachingpolicy": policy}
+            ctx.case(common.canon(meta), True)
+            try:
+                for phase in ("cold", "warm", "warm-again"):
+                    client, err, store, tr = c12.load(root, st, net, None, None, cls(location=d), policy)
+                    if err is not None:
+                        ctx.fail("client over a cold/warm cache failed", dict(meta, phase=phase), err, "a client")
+                        break
+                    fp = c12.fingerprint(client, I, ident)
+                    if fp != ref:
+                        diff = sorted(x for x in set(fp) | set(ref) if fp.get(x) != ref.get(x))
+                        ctx.fail("%s client differs from the cache-less client" % phase.split("-")[0], dict(meta, phase=phase),
+                                 {x: fp.get(x) for x in diff[:3]}, {x: ref.get(x) for x in diff[:3]})
+                        break
+                    if phase != "cold" and (tr.opened or store.served):
+                        ctx.fail("warm client fetched documents", dict(meta, phase=phase), [tr.opened, store.served], [[], []])
+                        break
+            finally:
+                shutil.rmtree(d, ignore_errors=True)
+
+
 def run(ctx):
     # (the directory's name holds characters that mean something to glob / fnmatch / regular expressions)
     workdir = tempfile.mkdtemp(prefix="verif-c11 [v1]*?-")
@@ -989,6 +1030,7 @@ def run(ctx):
         real_clock_and_file_urls(ctx, workdir)
         overwrites_stamps_and_shared_instances(ctx, workdir)
         durations_locations_and_names(ctx, workdir)
+        family_warm_clients(ctx, workdir)
         shared_dir(ctx, workdir)
         url_case(ctx, workdir)
         warm_clients(ctx, workdir)
